@@ -1018,7 +1018,7 @@ fn run_merge(prop: &'static str, seed: u64, iters: usize) {
             let (s, st) = mk_src(i, &mut rng);
             if nsrc >= 62 {
                 st.script.borrow_mut().clear();
-                if rng.below(4) == 0 { st.script.borrow_mut().push_back(Up::Item); }
+                if it % 100 == 49 && rng.below(4) == 0 { st.script.borrow_mut().push_back(Up::Item); }
                 st.script.borrow_mut().push_back(Up::End);
             }
             if nsrc < 62 { hist.push(format!("source {i}: {:?}", st.script.borrow())); } else if i == 0 { hist.push(format!("{nsrc} sources, each ending at once (one in four after a single item)")); }
@@ -1222,7 +1222,13 @@ fn main() {
         i += 1;
     }
     match prop {
-        "C01" | "C02" | "C05" | "C08" | "C12" | "C14" | "C15" => run_collections(prop, seed, iters),
+        "C01" | "C02" | "C08" | "C12" | "C14" | "C15" => run_collections(prop, seed, iters),
+        "C05" => {
+            run_collections(prop, seed, iters);
+            run_merge(prop, seed, iters / 2);
+            run_adapters(prop, seed, iters / 4);
+            run_join(prop, seed, iters / 4);
+        }
         "C04" => {
             run_collections(prop, seed, iters);
             run_adapters(prop, seed, iters / 2);
@@ -1239,8 +1245,13 @@ fn main() {
             run_join(prop, seed, iters);
             run_collections(prop, seed, iters / 4);
             run_adapters(prop, seed, iters / 4);
+            run_merge(prop, seed, iters / 4);
         }
-        "C11" | "C13" => run_merge(prop, seed, iters),
+        "C11" => run_merge(prop, seed, iters),
+        "C13" => {
+            run_merge(prop, seed, iters);
+            run_collections(prop, seed, iters / 2);
+        }
         "C18" => {
             run_alloc(prop, seed, iters);
             run_join(prop, seed, iters / 4);
